@@ -241,6 +241,11 @@ Proof. split; [reflexivity|]. split; [cbn; repeat constructor|]. split; [vm_comp
 Theorem C02_keys_string : forall k, k <> [] -> forallb slash_free k = true -> split_slash (key_string k) = k.
 Proof. exact split_join_key. Qed.
 Print Assumptions C02_keys_string.
+(* ... in particular for every key the layout function produces, when no member name contains "/" *)
+Theorem C02_keys_strings_of_layout : forall f t, names_slash_free t = true ->
+  Forall (fun kv => split_slash (key_string (fst kv)) = fst kv) (keys_of_jtree f t).
+Proof. exact keys_strings_split. Qed.
+Print Assumptions C02_keys_strings_of_layout.
 Example C02_keys_string_nonvacuous :
   key_string ["nodes"; "props"; "t"; "values"; "0.0"] = "nodes/props/t/values/0.0" /\
   split_slash "nodes/props/t/values/0.0" = ["nodes"; "props"; "t"; "values"; "0.0"] /\
